@@ -679,7 +679,11 @@ func workload(cx *lib.Ctx) {
 		rounds = (rounds + 2) / 3
 		res.Notes = append(res.Notes, "race detector enabled: number of rounds divided by 3, at most 12 goroutines, at most 2 passes")
 	}
-	budget := time.Duration(cx.Scale(50, 13*60)) * time.Second
+	// safety net for an overloaded machine (the nominal workload takes 10-20 s on 16 idle cores)
+	budget := time.Duration(cx.Scale(42, 13*60)) * time.Second
+	if raceEnabled {
+		budget = time.Duration(cx.Scale(32, 12*60)) * time.Second
+	}
 	for i := 0; i < rounds; i++ {
 		if cx.Elapsed() > budget {
 			res.Notes = append(res.Notes, fmt.Sprintf("time budget reached after %d of %d rounds", i, rounds))
@@ -792,6 +796,9 @@ func runChild(cx *lib.Ctx, bin string) {
 }
 
 func run(cx *lib.Ctx) {
+	if os.Getenv("HX_RACE_CHILD") == "" && cx.Replay == "" {
+		corrSymtab(cx)
+	}
 	if os.Getenv("HX_RACE_CHILD") == "" {
 		if bin := os.Getenv("HX_RACE_BIN"); bin != "" {
 			runChild(cx, bin)
